@@ -784,15 +784,20 @@ func coverAvoidSets(x *fw.Ctx, c *Case) {
 			mark(has("empty1"), "search for an empty pattern")
 		}
 	}
+	if c.Fn == "fill" {
+		mark(has("bound-at-length"), "explicit bound equal to the length (fill)")
+	}
 	switch c.Fn {
-	case "fill", "replace", "mismatch":
-		mark(has("bound-at-length"), "explicit bound equal to the length (fill replace mismatch)")
+	case "replace", "mismatch":
+		if has("bound-at-length") {
+			x.Cover("bound-equal-to-length:" + c.Fn)
+		}
 	}
 	if c.Fn == "reduce" {
 		mark(has("empty1") && c.Init == "", "reduce of an empty range without :initial-value")
 	}
 	if na := c.nilArgs(); na != "" {
-		x.Cover("minority:empty list as a sequence argument")
+		x.Cover("empty-list-argument:" + c.Fn)
 	}
 	if unsupported(c.Fn, c.T1) {
 		x.Cover("minority:sequence type the function rejects (" + c.T1 + ")")
@@ -1258,10 +1263,10 @@ func init() {
 			"bystanders (a copy-seq of the first sequence taken before the call and a separately built equal sequence) that must be unchanged afterwards. " +
 			"distinct = distinct case; every case is non-trivial (the language pins the result). A failing case is reduced (keywords dropped, :key applied to the data, " +
 			"sequence types made uniform) before its signature is taken. Kept in a minority of cases because they are listed open findings: :from-end of search/mismatch, " +
-			"search between a string or octets and another sequence type, explicit bounds equal to the length in fill/replace/mismatch, reduce of an empty range without " +
+			"search between a string or octets and another sequence type, explicit bounds equal to the length in fill (back in the full share for replace and mismatch, repaired), reduce of an empty range without " +
 			":initial-value, sequence types a function rejects outright (bit-vectors in find position remove delete substitute remove-duplicates search sort; octets in " +
 			"substitute and sort: a handful of grid cases each). Not generated: :test-not and the -if-not variants other than assoc-if-not (slip does not have them); " +
-			"numeric or equality functions applied to bits, plusp on octets, floor inside :key lambdas, negative integers under oddp/evenp (defects of other properties).",
+			"1+ zerop evenp oddp applied to bits (comparisons, equality and arithmetic on bits are generated again since fix 4569d33, merge takes bit-vectors), plusp on octets, floor inside :key lambdas, negative integers under oddp/evenp (defects of other properties).",
 		N:     nCases,
 		Gen:   gen,
 		Exec:  exec,
